@@ -490,6 +490,41 @@ func processFile(path, rel, module string, pkgVars map[string]bool, clockRound m
 	// R13: time.NewTimer / time.Timer go through the runtime, which gives the timer
 	// channel either the semantics of Go >= 1.23 or the buffered one-tick channel of
 	// earlier releases (what a main module with an older go line still gets)
+	// R15: the global functions of math/rand are seeded from the runtime's entropy since Go 1.20:
+	// a library that adds jitter to a pause would make the run depend on it. They draw from a
+	// generator seeded by the run seed instead
+	for _, im := range f.Imports {
+		if ip, _ := strconv.Unquote(im.Path.Value); ip == "math/rand" {
+			rn := "rand"
+			if im.Name != nil {
+				rn = im.Name.Name
+			}
+			randFns := map[string]bool{"Intn": true, "Int63n": true, "Int31n": true, "Int63": true, "Int31": true, "Int": true, "Float64": true, "Float32": true, "Uint32": true, "Uint64": true, "Perm": true, "Shuffle": true}
+			used := false
+			ast.Inspect(f, func(n ast.Node) bool {
+				if se, ok := n.(*ast.SelectorExpr); ok {
+					if id, ok := se.X.(*ast.Ident); ok && id.Name == rn && id.Obj == nil {
+						if randFns[se.Sel.Name] {
+							se.X = ast.NewIdent(rtName)
+							se.Sel = ast.NewIdent("Rand" + se.Sel.Name)
+							rw.needRT = true
+						} else {
+							used = true
+						}
+					}
+				}
+				return true
+			})
+			if !used {
+				// keep the import used
+				f.Decls = append(f.Decls, &ast.GenDecl{Tok: token.VAR, Specs: []ast.Spec{&ast.ValueSpec{
+					Names: []*ast.Ident{ast.NewIdent("_")},
+					Type:  &ast.StarExpr{X: &ast.SelectorExpr{X: ast.NewIdent(rn), Sel: ast.NewIdent("Rand")}},
+				}}})
+			}
+		}
+	}
+
 	sleepRewritten := false
 	if tn := timeImportName(f); tn != "" {
 		defer func() {
